@@ -338,10 +338,10 @@ fn run_schedule(prog: &Value, schedule: &[usize], path: &str, pinout: Option<&st
         prev = Some(pick);
         let step_to = Duration::from_millis(if all_blocked_rounds > 0 { 4000 } else { 700 });
         let mut arrived = feoxdb::verif::sched::step(ids[pick], step_to);
-        // the fine-grained points inside the ordered-index updates are decision points only for the
+        // the fine-grained points inside the ordered-index updates and the version clock are decision points only for the
         // programs that name them; everywhere else the thread walks straight through
         while let Some(name) = arrived {
-            if !(name.starts_with("tree_") && !fine_points.iter().any(|x| x == name)) { break; }
+            if !((name.starts_with("tree_") || name == "clock_load") && !fine_points.iter().any(|x| x == name)) { break; }
             arrived = feoxdb::verif::sched::step(ids[pick], step_to);
         }
         match arrived {
